@@ -6,6 +6,7 @@ import (
 	"fmt"
 	"sort"
 	"strings"
+	"sync"
 	"time"
 
 	"verif/cqlclient"
@@ -180,6 +181,10 @@ func newQueryFrame(v primitive.ProtocolVersion, stream int16, q string) *frameT 
 	return frameNew(v, stream, &message.Query{Query: q, Options: &message.QueryOptions{Consistency: primitive.ConsistencyLevelOne}})
 }
 
+// hammer: concurrent well-behaved clients issuing requests while the faults are applied (query plans in flight during
+// membership changes; used under the race detector)
+var topoHammer int
+
 func runTopoBehaviour(beh []topoStep, res *topoResult, base, max time.Duration, budget time.Duration) error {
 	t := tracer.New()
 	e, err := env.Start(env.Options{Nodes: beh[0].N, NumConns: 1, Hooks: true, Tracer: t, Keyspaces: []string{"ks"},
@@ -201,6 +206,31 @@ func runTopoBehaviour(beh []topoStep, res *topoResult, base, max time.Duration, 
 		return err
 	}
 	tr.c = c
+	stopHammer := make(chan struct{})
+	var hwg sync.WaitGroup
+	for k := 0; k < topoHammer; k++ {
+		hc, err := e.StartedClient(primitive.ProtocolVersion4, "")
+		if err != nil {
+			return err
+		}
+		hc.Quiet = true
+		hwg.Add(1)
+		go func(k int, hc *cqlclient.Client) {
+			defer hwg.Done()
+			var seq int16
+			for n := 0; ; n++ {
+				select {
+				case <-stopHammer:
+					return
+				default:
+				}
+				seq = (seq + 1) % 2000
+				tok := fmt.Sprintf("tokhm%dx%d;", k, n)
+				_, _ = hc.Roundtrip(newQueryFrame(hc.Version, seq, fmt.Sprintf("SELECT * FROM ks.t WHERE k = '%s'", tok)), tok, "hammer", time.Second)
+			}
+		}(k, hc)
+	}
+	defer func() { close(stopHammer); hwg.Wait() }()
 	for i, st := range beh {
 		if st.A != "init" {
 			tr.apply(st)
@@ -388,6 +418,7 @@ func init() {
 		baseMs := fs.Int("base", 5, "reconnect base delay (ms)")
 		maxMs := fs.Int("max", 60, "reconnect max delay (ms)")
 		budget := fs.Int("budget", 6000, "convergence budget per step (ms)")
+		fs.IntVar(&topoHammer, "hammer", 0, "concurrent clients issuing requests while faults are applied")
 		_ = fs.Parse(args)
 		res := &topoResult{BaseNs: int64(*baseMs) * 1e6, MaxNs: int64(*maxMs) * 1e6}
 		err := readJSONLines(*in, func(line []byte) error {
